@@ -2,6 +2,7 @@
 import LA.Model.Util
 import LA.Model.NumFmt
 import LA.Model.Codec
+import LA.Model.Pax
 namespace LA.Codec
 open LA.NumFmt
 
@@ -192,6 +193,10 @@ def stepLine (d : DState) (op obs : String) : DState × String :=
       | some v => (d, s!"v={v}")
       | none => (d, "bad-op")
     | none => (d, "bad-op")
+  | ["paxrec", k, v] =>
+    match LA.parseHex k, LA.parseHex v with
+    | some k, some v => (d, s!"b={LA.toHex (LA.Pax.record k v)}")
+    | _, _ => (d, "bad-op")
   | "open" :: ws =>
     let name := (kv ws "f").getD ""
     let d' : DState := { fmt := parseFmt name, fmtName := name, isOpen := true,
